@@ -1,5 +1,5 @@
 (** C18 — Raw UDP connection emits valid IPv4/UDP frames and reads only its own. *)
-From DV Require Import Base.Bytes V4.Model Raw.Model Raw.Proofs Raw.Spec.
+From DV Require Import Base.Bytes V4.Model Raw.Model Raw.Proofs Raw.Spec Raw.Bound.
 
 (** every datagram leaves as: version 4 / IHL 5 (0x45), total length 28+n, TTL 64,
     protocol 17, source and destination address, then source port, destination
@@ -46,6 +46,18 @@ Theorem C18_read_exact : forall bound blen frame p src sport,
   read_frame bound blen frame = Ok (Deliver p src sport) <-> frame_spec bound blen frame p src sport.
 Proof. exact read_frame_iff. Qed.
 Print Assumptions C18_read_exact.
+
+(** the bound-address rule inside [frame_spec]: no bound address accepts every destination; a bound port must equal
+    the destination port; a bound IP address - 0.0.0.0 and 255.255.255.255 are addresses like any other - must equal
+    the destination address *)
+Theorem C18_bound_rule : forall bound dst_ip dst_port,
+  udp_match dst_ip dst_port bound = true <-> bound_accepts bound dst_ip dst_port.
+Proof. exact udp_match_spec. Qed.
+Print Assumptions C18_bound_rule.
+
+Theorem C18_bound_v4_equality : forall a b, length a = 4 -> length b = 4 -> (ip_equal a b = true <-> a = b).
+Proof. exact ip_equal_v4. Qed.
+Print Assumptions C18_bound_v4_equality.
 
 Theorem C18_read_skips_malformed : forall bound blen frame,
   (forall p src sport, ~ frame_spec bound blen frame p src sport) -> read_frame bound blen frame = Ok Skip.
